@@ -87,6 +87,12 @@ class RowLike:
         return f"RowLike({self._d!r})"
 
 
+@dataclasses.dataclass
+class OptS:
+    a: str
+    b: str = "x"
+
+
 def _row(cols):
     con = sqlite3.connect(":memory:")
     con.row_factory = sqlite3.Row
@@ -103,6 +109,8 @@ EXTRA = [
     Datum("RowLike(a,b)", lambda: RowLike({"a": 1, "b": 2})), Datum("RowLike()", lambda: RowLike({})),
     Datum("sqlite3.Row(a)", lambda: _row({"a": 1})), Datum("sqlite3.Row(b)", lambda: _row({"b": 1})),
     Datum("sqlite3.Row(a,b)", lambda: _row({"a": 1, "b": 2})),
+    # subscriptable objects that are no mappings: the value of column a is the NAME of the optional field b; a match object
+    Datum("sqlite3.Row(a='b')", lambda: _row({"a": "'b'"})), Datum("re.Match(a)", lambda: __import__("re").match("(?P<a>x)", "x")),
 ]
 
 VARIANTS = [
@@ -122,6 +130,7 @@ VARIANTS = [
                                                                              allow_compound=False)]),
     ("model Two", Two, lambda: []),
     ("model Opt", Opt, lambda: []),
+    ("model OptS", OptS, lambda: []),
     ("model Two as_list", Two, lambda: [name_mapping(Two, as_list=True)]),
     ("model Two extra forbid", Two, lambda: [name_mapping(Two, extra_in=__import__("adaptix").ExtraForbid())]),
     ("model Opt extra kwargs-less collect", Opt, lambda: [name_mapping(Opt, extra_in=__import__("adaptix").ExtraSkip())]),
